@@ -541,7 +541,7 @@ def NOREPLAY(n):
 
 
 SIMQ = dict(simulate=dict(num=120, depth=40), workers=4)
-SIMT = dict(simulate=dict(num=2500, depth=40), workers=8)
+SIMT = dict(simulate=dict(num=1500, depth=40), workers=8)
 # (config, kinds of test objects per behaviour | NOREPLAY | name of the invariant/property TLC must report violated, TLC options)
 PLANS = {
     "C08": {
